@@ -12,6 +12,8 @@
 //   st-rst-not-acceptable      connection reset by an RST outside the receive window / not the expected handshake RST
 //   st-timewait-early          TIME-WAIT left by a poll earlier than 10 s after it was (re)entered
 //   st-timewait-late           still TIME-WAIT after a complete poll at or after the 10 s deadline
+//   st-listener-wrong-address / st-segment-wrong-address  a listener bound to one interface address (or a connection)
+//                              changed state by a segment addressed to the interface's other address
 //   st-closed-by-poll          a poll closed a connection with no timeout configured and not from TIME-WAIT
 //   st-failed-call-changed-state  listen/connect returned an error but the state changed
 //   api-connect-result / api-predicates  connect's result or is_open/is_active/is_listening/may_send differ from their RFC 9293 definition
@@ -79,6 +81,9 @@ fn oracle_case(c: &Case, fails: &mut Vec<String>, stats: &mut BTreeMap<String, u
     let mut isns = cfg.isns.clone();
     let mut conn = Conn { adv_edge: None, ws_ours: None, ws_peer: false, syn_win: None, iss: None, irs: None, consumed: 0, sent: 0, fin_rcvd: false, listener: false };
     let mut timeout: Option<i64> = None;
+    // address given to listen() (None = any) and local address of the current connection (last octets)
+    let mut bound: Option<i64> = None;
+    let mut conn_local: Option<i64> = None;
     let mut tw_enter: i64 = 0; // time TIME-WAIT was entered: the timer never expires before this + 10 s
     let mut tw_since: i64 = 0; // time of the last event that may have refreshed it (upper bound)
     let mut pre = sim.state();
@@ -135,6 +140,10 @@ fn oracle_case(c: &Case, fails: &mut Vec<String>, stats: &mut BTreeMap<String, u
                 if st.ret != "ok" && pre != post {
                     fail("st-failed-call-changed-state", format!("listen returned {}", st.ret));
                 }
+                if st.ret == "ok" {
+                    bound = opt_i(kv(&toks, "a"));
+                    conn_local = None;
+                }
             }
             "connect" => {
                 if st.ret == "ok" {
@@ -147,6 +156,10 @@ fn oracle_case(c: &Case, fails: &mut Vec<String>, stats: &mut BTreeMap<String, u
                 }
                 if st.ret != "ok" && pre != post {
                     fail("st-failed-call-changed-state", format!("connect returned {}", st.ret));
+                }
+                if st.ret == "ok" {
+                    bound = None;
+                    conn_local = Some(1);
                 }
                 // the four Unaddressable arms and InvalidState, independently of the code
                 let rp = opt_i(kv(&toks, "rp")).unwrap_or(0);
@@ -207,6 +220,25 @@ fn oracle_case(c: &Case, fails: &mut Vec<String>, stats: &mut BTreeMap<String, u
                 let ack = opt_i(kv(&toks, "ack")).map(|a| a as u32);
                 let len = opt_i(kv(&toks, "len")).unwrap_or(0);
                 let (syn, fin, rst) = (fl.contains('S'), fl.contains('F'), fl.contains('R'));
+                // destination-address filter: a listener bound to A takes nothing addressed to B (also after
+                // a handshake RST put it back to LISTEN); a connection takes only segments for its own address
+                let da = opt_i(kv(&toks, "da")).unwrap_or(1);
+                if pre != post {
+                    if pre == S::Listen {
+                        if let Some(b) = bound {
+                            if b != da {
+                                fail("st-listener-wrong-address", format!("listening on 10.0.0.{} took a segment addressed to 10.0.0.{}", b, da));
+                            }
+                        }
+                    } else if let Some(l) = conn_local {
+                        if l != da && pre != S::Closed {
+                            fail("st-segment-wrong-address", format!("connection on 10.0.0.{} changed state by a segment addressed to 10.0.0.{}", l, da));
+                        }
+                    }
+                }
+                if pre == S::Listen && post == S::SynReceived {
+                    conn_local = Some(da);
+                }
                 let one_ctl = (syn as u8 + fin as u8 + rst as u8) <= 1;
                 if pre == S::Listen && post == S::SynReceived {
                     // a new incarnation (also after a handshake RST returned the listener to LISTEN)
